@@ -137,7 +137,7 @@ FAMILIES['C08'] = [
     fam('pq-get-and-cancel-two-putters', ['QPUT QPUT HOLD QGET QCANCEL', 'QPUT', 'QPUT'], QCAP=2, w=4),
     fam('pq-both-ends', ['QPUT QPUT QPUT HOLD', 'HOLD QGET QGET', 'TADD QGET QCANCEL'], QCAP=2, w=4),
     fam('resource-4-coincidences', ['ACQ HOLD REL', 'TADD ACQ HOLD REL', 'TADD ACQ HOLD REL', 'ACQ REL'], tier='thorough', PRIOSYM=1, w=60),
-    fam('buffer-full-range', ['BPUT HOLD BPUT', 'TADD BGET'], tier='thorough', BUFCAP=0, BAMT_FULL=1, w=60),
+    # buffer-full-range (thorough, C08): did not finish within 2400 s, not claimed (the quick families buffer-full-range-* of C11 cover two operations)
 ]
 
 FAMILIES['C09'] = [
